@@ -3,6 +3,11 @@ package main
 // Per-kind contracts over E-TRACE traces: printer (C15), traverser (C12), dumper (C16).
 
 import (
+	"strconv"
+	"path/filepath"
+	"os/exec"
+	"os"
+	"encoding/json"
 	"fmt"
 	"go/types"
 	"regexp"
@@ -166,6 +171,7 @@ type printedItem struct {
 	Ev   *TEvent
 }
 
+var reQuoted = regexp.MustCompile(`"(?:[^"\\]|\\.)*"`)
 var reField = regexp.MustCompile(`^n\.([A-Za-z0-9_]+)$`)
 var rePeek = regexp.MustCompile(`^n\.([A-Za-z0-9_]+)\.\(\*ast\.StmtStmtList\)\.([A-Za-z0-9_]+)$`)
 
@@ -601,3 +607,130 @@ func (c *CheckCtx) checkDumper(kinds []kindInfo) {
 }
 
 var _ = types.Typ
+
+// checkDefaultLexemes (C15: "where a token is absent the printer substitutes the construct's
+// canonical lexeme ..., never another node's text"): a literal default of a token slot must be a
+// lexeme of a terminal that the grammars store in that slot. The terminals per slot come from the
+// grammar actions (E-GRAM), the terminal of a literal from running the real lexer on it (ground
+// evaluation); slots no grammar action fills with a terminal directly are skipped and counted.
+func (c *CheckCtx) checkDefaultLexemes(kinds []kindInfo, runs map[string]*gramRun) {
+	pkg := modPath + "/pkg/visitor/printer"
+	f := loadFamily(c.W, pkg, "(*printer)")
+	dirs := traceDirectives(c.W, pkg)
+	allowWrite := map[string]bool{}
+	for _, a := range dirs["allow-write"] {
+		allowWrite[a] = true
+	}
+	except := map[string]bool{}
+	for _, d := range dirs["default-lexeme-ok"] {
+		if fs := strings.Fields(d); len(fs) > 0 {
+			except[fs[0]] = true
+		}
+	}
+	type ds struct{ kind, slot, lit string }
+	var all []ds
+	lits := map[string]bool{}
+	for ki := range kinds {
+		k := &kinds[ki]
+		paths, err := f.trace(k.Name)
+		if err != "" {
+			continue
+		}
+		seen := map[string]bool{}
+		for _, p := range paths {
+			items, _ := printerItems(k, p, allowWrite)
+			for _, it := range items {
+				if it.Kind != "token" || it.Def == nil {
+					continue
+				}
+				// every string literal inside the default expression (a literal, or if*-helpers choosing one)
+				for _, lit := range reQuoted.FindAllString(it.Def.S, -1) {
+					if lit == `""` || seen[it.Slot+lit] {
+						continue
+					}
+					seen[it.Slot+lit] = true
+					all = append(all, ds{k.Name, it.Slot, lit})
+					lits[lit] = true
+				}
+			}
+		}
+	}
+	term, err := lexLiterals(sortedKeys(lits))
+	if err != "" {
+		c.addOb("pkg/visitor/printer/default-lexeme/ground-evaluation", "trace", "", false, "cannot run the real lexer on the default lexemes: "+err)
+		return
+	}
+	skipped := 0
+	for _, d := range all {
+		want := map[string]bool{}
+		for _, r := range runs {
+			for t := range r.Res.SlotTerms[d.kind+"."+d.slot] {
+				want[t] = true
+			}
+		}
+		if len(want) == 0 {
+			skipped++
+			continue
+		}
+		got := term[d.lit]
+		ok := want[got] || except[d.kind+"."+d.slot]
+		var ws []string
+		for t := range want {
+			ws = append(ws, t)
+		}
+		sort.Strings(ws)
+		c.addOb(fmt.Sprintf("pkg/visitor/printer.(*printer).%s/default-lexeme/%s", d.kind, d.slot), "trace", "", ok,
+			fmt.Sprintf("the default %s of %s.%s is lexed as %s, but the grammars store %s in this slot: the printer would substitute another construct's text", d.lit, d.kind, d.slot, got, strings.Join(ws, " / ")))
+	}
+	c.CoverageExtra["default_lexeme_slots_without_direct_terminal"] = skipped
+	c.assume("ground-eval: the terminal of each default lexeme is obtained by running the real lexer on `<?php <lexeme> ` (replay/c15_lexeme_test.go)")
+}
+
+// lexLiterals runs the lexeme harness; result: Go-quoted literal -> terminal name.
+func lexLiterals(quoted []string) (map[string]string, string) {
+	src := filepath.Join(verifDir, "replay", "c15_lexeme_test.go")
+	tmp, err := os.MkdirTemp("", "vclex")
+	if err != nil {
+		return nil, err.Error()
+	}
+	defer os.RemoveAll(tmp)
+	target := filepath.Join(repoDir, "internal/scanner", "zz_vc_lexeme_test.go")
+	ovData, _ := json.Marshal(map[string]interface{}{"Replace": map[string]string{target: src}})
+	ovPath := filepath.Join(tmp, "overlay.json")
+	os.WriteFile(ovPath, ovData, 0o644)
+	cmd := exec.Command("go", "test", "-overlay", ovPath, "-v", "-vet=off", "-count=1", "-timeout", "120s", "-run", "TestVCLexemes", "./internal/scanner")
+	cmd.Dir = repoDir
+	cmd.Env = append(os.Environ(), "GOFLAGS=-mod=mod", "GOPROXY=off", "GOSUMDB=off", "GOTOOLCHAIN=local", "VC_LEXEMES="+strings.Join(quoted, "\x1f"))
+	out, _ := cmd.CombinedOutput()
+	res := map[string]string{}
+	for _, l := range strings.Split(string(out), "\n") {
+		l = strings.TrimSpace(l)
+		if !strings.HasPrefix(l, "LEX ") {
+			continue
+		}
+		rest := l[4:]
+		// the quoted literal ends at the last `" ` before the terminal
+		i := strings.LastIndex(rest, "\" ")
+		j := strings.Index(rest, "\" ")
+		_ = i
+		for j >= 0 {
+			q := rest[:j+1]
+			if _, err := strconv.Unquote(q); err == nil {
+				fs := strings.Fields(rest[j+2:])
+				if len(fs) > 0 {
+					res[q] = fs[0]
+				}
+				break
+			}
+			k := strings.Index(rest[j+1:], "\" ")
+			if k < 0 {
+				break
+			}
+			j = j + 1 + k
+		}
+	}
+	if len(res) == 0 {
+		return nil, truncate(string(out), 600)
+	}
+	return res, ""
+}
